@@ -82,6 +82,7 @@ int main(int argc, char** argv) {
     for (int i = 1; i < argc; i++) { std::string a = argv[i]; auto p = a.find('='); if (p != std::string::npos) A[a.substr(0, p)] = a.substr(p + 1); }
     vh::install_fault_handlers(argi("alarm", 120));
     long seed = argi("seed", 1), nscn = argi("scenarios", 20), runs = argi("runs", 10), nth = argi("threads", 2), opsper = argi("opsper", 2);
+    long directed = argi("directed", 0);
     long pscan = argi("scans", 0), piscan = argi("iscans", 0), pre_max = argi("premax", 400);
     std::string fam = args("family", "border"), sched = args("sched", "random");
     rng.seed(seed);
@@ -107,6 +108,38 @@ int main(int argc, char** argv) {
             } else if (fam == "ddl") { long y = rng() % 100; o.kind = y < 45 ? "create" : y < 85 ? "delete" : "find"; o.k = k; }
             else { long y = rng() % 100; o.kind = y < 30 ? "get" : y < 55 ? "put" : y < 70 ? "uput" : "rem"; o.k = k; o.uniq = o.kind == "uput"; }
             o.t = (int)t + 1; prog[t].push_back(o); } }
+        // directed templates (every other scenario of the non-DDL families): patterns that random programs rarely produce
+        if (fam != "ddl" && nth >= 2 && (sc % 2 == 1 || directed) && !scn.init.empty()) {
+            auto rd = [&](std::size_t n) { return (std::size_t)(rng() % n); };
+            std::vector<std::string> sorted_init = scn.init; std::sort(sorted_init.begin(), sorted_init.end());
+            std::string x = scn.uni[rd(scn.uni.size())]; if (std::find(scn.init.begin(), scn.init.end(), x) == scn.init.end()) x = sorted_init[rd(sorted_init.size())];
+            // y: a key that is not present and sorts far from x in the same node / layer (slot reuse puts it where x's rank used to point)
+            std::string pre = x.size() > 8 ? x.substr(0, x.size() - 1) : std::string(); unsigned char last = x.empty() ? 0 : (unsigned char)x.back();
+            std::vector<std::string> ys; for (int d : {-77, -33, -6, -1, 1, 6, 33, 77}) { int c = (int)last + d; if (c < 1 || c > 254) continue; std::string y = (x.size() > 8 ? pre : x.substr(0, x.size() ? x.size() - 1 : 0)) + std::string(1, (char)c); if (std::find(scn.init.begin(), scn.init.end(), y) == scn.init.end()) ys.push_back(y); }
+            std::string y = ys.empty() ? x + "y" : ys[rd(ys.size())];
+            if (directed && ys.size() > 2) y = rd(2) ? ys.front() : ys.back();    // far from x: lands beyond x's neighbours
+            for (auto& k : {x, y}) if (std::find(scn.uni.begin(), scn.uni.end(), k) == scn.uni.end()) scn.uni.push_back(k);
+            auto mk = [&](const char* kind, const std::string& k) { Op o; o.kind = kind; o.k = k; o.uniq = !strcmp(kind, "uput"); return o; };
+            auto reader = [&]() { Op o; long z = rng() % 100;
+                if (pscan + piscan == 0 || z >= pscan + piscan + 20) return mk("get", rd(2) ? x : y);
+                o.kind = (long)(rng() % (pscan + piscan)) < pscan ? "scan" : "iscan"; o.le = scan_endpoint::INF; o.re = scan_endpoint::INF;
+                int shape = (int)rd(4);
+                if (shape == 0) { o.max = 1 + rd(sorted_init.size() < 6 ? sorted_init.size() : 6); }                       // size limited: ends inside a node
+                else if (shape == 1) { o.r = sorted_init[rd(sorted_init.size())]; o.re = rd(2) ? scan_endpoint::INCLUSIVE : scan_endpoint::EXCLUSIVE; }  // bounded on the right
+                else if (shape == 2 && o.kind == "scan") { o.rtl = true; o.max = 1; }
+                else { o.l = sorted_init[rd(sorted_init.size())]; o.le = rd(2) ? scan_endpoint::INCLUSIVE : scan_endpoint::EXCLUSIVE; }
+                if (o.kind == "iscan") { o.rtl = rd(2); o.max = 0; o.limit = rd(3) == 0 ? (long)rd(3) : -1; }
+                return o; };
+            int tpl = (int)rd(4);
+            for (auto& v : prog) v.clear();
+            prog[0].push_back(reader()); if (opsper > 1 && rd(2)) prog[0].push_back(reader());
+            if (tpl == 0) { prog[1].push_back(mk("rem", x)); prog[1].push_back(mk("put", y)); }                 // slot reuse by another key
+            else if (tpl == 1) { prog[1].push_back(mk("rem", x)); prog[1].push_back(mk(rd(2) ? "put" : "uput", x)); }   // same key removed and re-inserted
+            else if (tpl == 2) { prog[1].push_back(mk("put", y)); prog[1].push_back(mk("rem", y)); }             // insert then remove of a new key
+            else { prog[1].push_back(mk("put", x)); prog[1].push_back(mk("rem", x)); }                           // update then remove
+            for (long t = 2; t < nth; t++) { prog[t].push_back(mk(rd(2) ? "put" : "rem", rd(2) ? x : y)); }
+            for (long t = 0; t < nth; t++) for (auto& o : prog[t]) o.t = (int)t + 1;
+        }
         // schedules for this scenario
         long nsched = runs; std::vector<std::vector<std::pair<int, long>>> plans;
         if (sched == "pre1") {   // every single preemption: thread a runs k points, then b (and c) to completion, then a again
